@@ -703,3 +703,4 @@ Proof.
   unfold py_slice. rewrite !clip_in by (rewrite app_length, Hl; lia). change (Z.to_nat 12 - Z.to_nat 4) with 8. change (Z.to_nat 4) with 4.
   rewrite skipn_app, firstn_app, skipn_length, Hl. change (8 - (24 - 4)) with 0. cbn [firstn]. now rewrite app_nil_r.
 Qed.
+
